@@ -1352,6 +1352,15 @@ impl Compiler {
             Node::BinaryOp { op, lhs, rhs } => match op {
                 // Logical operators write their lhs to the result register before evaluating the rhs
                 AstBinaryOp::And | AstBinaryOp::Or => false,
+                // Compound assignments to a chain write the new value to the result register
+                // before the chain's index/key and the rhs have been read for the last time,
+                // e.g. `x = (m[x] += 1)`, `x = (m.foo += x)`
+                AstBinaryOp::AddAssign
+                | AstBinaryOp::SubtractAssign
+                | AstBinaryOp::MultiplyAssign
+                | AstBinaryOp::DivideAssign
+                | AstBinaryOp::RemainderAssign
+                | AstBinaryOp::PowerAssign => !matches!(ctx.node(*lhs), Node::Chain(_)),
                 // Chained comparisons write intermediate results to the result register
                 _ => !(is_comparison(ctx.node(*lhs)) || is_comparison(ctx.node(*rhs))),
             },
